@@ -178,6 +178,90 @@ macro_rules! run_width {
     }};
 }
 
+// ------------------------------------------------------------------ scale-rotation-translation (C10)
+macro_rules! run_srt {
+    ($cx:ident, $c:ident, $S:ident, $tol:expr, $PI4:expr, $V2:ident, $V3:ident, $Q:ident, $M2:ident, $M3:ident, $M4:ident, $A2:ident, $A3:ident, [$($M3X:ident),*]) => {{
+        let e = &$c["exp"];
+        let lin = ringv(&e["lin"]);
+        let sc = ringv(&e["scale"]);
+        let tr = ringv(&e["t"]);
+        let smax = sc.iter().fold(1.0f64, |a, b| a.max(b.abs()));
+        let tol = $tol * 4.0 * smax;
+        if $c["kind"] == "srt3" {
+            let sd: Vec<$S> = $c["seed"].as_array().unwrap().iter().map(|x| x.as_i64().unwrap() as $S * $PI4).collect();
+            let q = $Q::from_euler(EulerRot::XYZ, sd[0], sd[1], sd[2]);
+            let s = $V3::new(sc[0] as $S, sc[1] as $S, sc[2] as $S);
+            let t = $V3::new(tr[0] as $S, tr[1] as $S, tr[2] as $S);
+            let rot = ringv(&e["rot"]);
+            let m4 = $M4::from_scale_rotation_translation(s, q, t);
+            let m4v = f64s!(m4.to_cols_array());
+            near($cx, $c, "from_scale_rotation_translation linear", stringify!($M4), &lin, &m3_of4(&m4v), tol);
+            near($cx, $c, "from_scale_rotation_translation last row/column", stringify!($M4), &[0.0, 0.0, 0.0, tr[0], tr[1], tr[2], 1.0], &rest_of4(&m4v), 0.0);
+            let a3 = $A3::from_scale_rotation_translation(s, q, t);
+            let a3v = f64s!(a3.to_cols_array());
+            near($cx, $c, "from_scale_rotation_translation linear", stringify!($A3), &lin, &a3v[..9], tol);
+            near($cx, $c, "from_scale_rotation_translation translation", stringify!($A3), &tr, &a3v[9..], 0.0);
+            // the documented product of the elementary constructors: translation * rotation * scale
+            let prod = $M4::from_translation(t) * $M4::from_quat(q) * $M4::from_scale(s);
+            let pv = f64s!(prod.to_cols_array());
+            near($cx, $c, "from_translation * from_quat * from_scale", stringify!($M4), &lin, &m3_of4(&pv), tol);
+            near($cx, $c, "from_translation * from_quat * from_scale (last row/column)", stringify!($M4), &[0.0, 0.0, 0.0, tr[0], tr[1], tr[2], 1.0], &rest_of4(&pv), 0.0);
+            let aprod = $A3::from_translation(t) * $A3::from_quat(q) * $A3::from_scale(s);
+            near($cx, $c, "from_translation * from_quat * from_scale", stringify!($A3), &lin, &f64s!(aprod.to_cols_array())[..9], tol);
+            // rotation + translation only
+            let rt = f64s!($M4::from_rotation_translation(q, t).to_cols_array());
+            near($cx, $c, "from_rotation_translation", stringify!($M4), &rot, &m3_of4(&rt), $tol * 4.0);
+            near($cx, $c, "from_rotation_translation (last row/column)", stringify!($M4), &[0.0, 0.0, 0.0, tr[0], tr[1], tr[2], 1.0], &rest_of4(&rt), 0.0);
+            let art = f64s!($A3::from_rotation_translation(q, t).to_cols_array());
+            near($cx, $c, "from_rotation_translation", stringify!($A3), &rot, &art[..9], $tol * 4.0);
+            near($cx, $c, "from_rotation_translation translation", stringify!($A3), &tr, &art[9..], 0.0);
+            let mt = f64s!($M4::from_mat3_translation($M3::from_quat(q), t).to_cols_array());
+            near($cx, $c, "from_mat3_translation", stringify!($M4), &rot, &m3_of4(&mt), $tol * 4.0);
+            near($cx, $c, "from_mat3_translation (last row/column)", stringify!($M4), &[0.0, 0.0, 0.0, tr[0], tr[1], tr[2], 1.0], &rest_of4(&mt), 0.0);
+            let amt = f64s!($A3::from_mat3_translation($M3::from_quat(q), t).to_cols_array());
+            near($cx, $c, "from_mat3_translation", stringify!($A3), &rot, &amt[..9], $tol * 4.0);
+            // decomposition: translation exact, rotation unit, documented sign rule, recomposition reproduces the transform
+            let detneg = e["detneg"].as_bool().unwrap();
+            let ds = ringv(&e["dscale"]);
+            for (who, (s2, r2, t2)) in [(stringify!($M4), m4.to_scale_rotation_translation()), (stringify!($A3), a3.to_scale_rotation_translation())] {
+                near($cx, $c, "to_scale_rotation_translation: translation", who, &tr, &f64s!(t2.to_array()), 0.0);
+                near($cx, $c, "to_scale_rotation_translation: unit rotation", who, &[1.0], &[r2.length() as f64], $tol * 4.0);
+                near($cx, $c, &format!("to_scale_rotation_translation: scale (negative x iff det < 0; det<0: {detneg})"), who, &ds, &f64s!(s2.to_array()), tol);
+                let back = f64s!($M4::from_scale_rotation_translation(s2, r2, t2).to_cols_array());
+                near($cx, $c, "to_scale_rotation_translation -> recompose", who, &lin, &m3_of4(&back), tol * 4.0);
+            }
+        } else {
+            let j = $c["j"].as_i64().unwrap();
+            let th = (j as $S) * $PI4;
+            let s = $V2::new(sc[0] as $S, sc[1] as $S);
+            let t = $V2::new(tr[0] as $S, tr[1] as $S);
+            let a2 = $A2::from_scale_angle_translation(s, th, t);
+            let a2v = f64s!(a2.to_cols_array());
+            near($cx, $c, "from_scale_angle_translation linear", stringify!($A2), &lin, &a2v[..4], tol);
+            near($cx, $c, "from_scale_angle_translation translation", stringify!($A2), &tr, &a2v[4..], 0.0);
+            let want3 = [lin[0], lin[1], 0.0, lin[2], lin[3], 0.0, tr[0], tr[1], 1.0];
+            near($cx, $c, "from_scale_angle_translation", stringify!($M3), &want3, &f64s!($M3::from_scale_angle_translation(s, th, t).to_cols_array()), tol);
+            $( near($cx, $c, "from_scale_angle_translation", stringify!($M3X), &want3, &f64s!($M3X::from_scale_angle_translation(s, th, t).to_cols_array()), tol); )*
+            near($cx, $c, "from_scale_angle", stringify!($M2), &lin, &f64s!($M2::from_scale_angle(s, th).to_cols_array()), tol);
+            let prod = $A2::from_translation(t) * $A2::from_angle(th) * $A2::from_scale(s);
+            near($cx, $c, "from_translation * from_angle * from_scale", stringify!($A2), &lin, &f64s!(prod.to_cols_array())[..4], tol);
+            let mp = $M3::from_translation(t) * $M3::from_angle(th) * $M3::from_scale(s);
+            near($cx, $c, "from_translation * from_angle * from_scale", stringify!($M3), &want3, &f64s!(mp.to_cols_array()), tol);
+            let rot = ringv(&e["rot"]);
+            let at = f64s!($A2::from_angle_translation(th, t).to_cols_array());
+            near($cx, $c, "from_angle_translation", stringify!($A2), &rot, &at[..4], $tol * 4.0);
+            near($cx, $c, "from_angle_translation translation", stringify!($A2), &tr, &at[4..], 0.0);
+            let amt = f64s!($A2::from_mat2_translation($M2::from_scale_angle(s, th), t).to_cols_array());
+            near($cx, $c, "from_mat2_translation", stringify!($A2), &lin, &amt[..4], tol);
+            near($cx, $c, "from_mat2_translation translation", stringify!($A2), &tr, &amt[4..], 0.0);
+            let (s2, an2, t2) = a2.to_scale_angle_translation();
+            near($cx, $c, "to_scale_angle_translation: translation", stringify!($A2), &tr, &f64s!(t2.to_array()), 0.0);
+            let back = f64s!($A2::from_scale_angle_translation(s2, an2, t2).to_cols_array());
+            near($cx, $c, "to_scale_angle_translation -> recompose", stringify!($A2), &lin, &back[..4], tol * 4.0);
+        }
+    }};
+}
+
 // ------------------------------------------------------------------ conversion chains (C05)
 #[derive(Clone, Copy, Debug)]
 enum Rep { Q(Quat), M3(Mat3), M3A(Mat3A), M4(Mat4), A3(Affine3A), DQ(DQuat), DM3(DMat3), DM4(DMat4), DA3(DAffine3) }
@@ -315,6 +399,20 @@ fn main() {
             cx.rep.count_op(&format!("chain:{}:{}", c["start"].as_str().unwrap(), c["branch"].as_str().unwrap()), 1);
             if cx.rep.samples.len() < 3 && n % 9973 == 1 { cx.rep.samples.push(c.clone()); }
             run_chain(&mut cx, &c);
+            return;
+        }
+        if c["fam"] == "srt" {
+            n += 1;
+            cx.rep.nontrivial += 1;
+            cx.rep.count_op(c["kind"].as_str().unwrap(), 1);
+            if cx.rep.samples.len() < 3 && n % 211 == 1 { cx.rep.samples.push(c.clone()); }
+            let r = catch(|| {
+                let c = &c;
+                let cx = &mut cx;
+                run_srt!(cx, c, f32, 1e-5, core::f32::consts::FRAC_PI_4, Vec2, Vec3, Quat, Mat2, Mat3, Mat4, Affine2, Affine3A, [Mat3A]);
+                run_srt!(cx, c, f64, 1e-12, core::f64::consts::FRAC_PI_4, DVec2, DVec3, DQuat, DMat2, DMat3, DMat4, DAffine2, DAffine3, []);
+            });
+            if let Err(p) = r { cx.rep.mismatch(json!({"prop": cx.prop, "ty": "any", "op": "srt", "what": "panic", "panic": p, "case": c})); }
             return;
         }
         if c["fam"] != "rot" { return; }
